@@ -129,7 +129,7 @@ def resolvedF (par : Parent Float) (s : DD Float) : Bool := Discretize.resolved 
 
 /-- exploration of the parent on the points `lower :: bounds ++ [upper]` (groups `xp`, `xe`):
 `pProb` non-decreasing; class masses; mean relation `a ΔP ≤ ΔE ≤ b ΔP`; discrete mean -/
-def exploreClauses (s : DD Float) (eqProbBranch meanValued resolvedOk : Bool) (xp xe : List Float) : List (String × Bool) :=
+def exploreClauses (s : DD Float) (eqProbBranch meanValued resolvedOk medianRescaled : Bool) (xp xe : List Float) : List (String × Bool) :=
   if xp.length != s.allBounds.length || xe.length != xp.length || xp.length < 2 then [] else
   let pLo := xp.headD 0
   let pHi := xp.getLastD 0
@@ -148,6 +148,14 @@ def exploreClauses (s : DD Float) (eqProbBranch meanValued resolvedOk : Bool) (x
       let sl := 1e-6 * (1 + maxF (absF a) (absF b)) * (absF dp + 1e-9)
       -- the far tails of the domain (|bound| = 1.7e23) carry no mass: skip them
       absF a > 1e20 || absF b > 1e20 || (a * dp - sl ≤ de && de ≤ b * dp + sl))),
+   -- theorem `class_value_is_mean`: a mean-valued class value is the parent's mean over its class
+   ("search_class_mean", !(meanValued && resolvedOk && wide) ||
+      ((s.cats.zip (dP.zip dE)).all (fun x => x.2.1 ≤ 1e-12 || absF (x.1 - x.2.2 / x.2.1) ≤ 5e-3 * (1 + absF x.1)))),
+   -- theorem `mean_preserved_median`
+   ("search_mean_preserved_median", !(medianRescaled && resolvedOk) ||
+      (let m := discreteMean s
+       let pm := (xe.getLastD 0 - xe.headD 0) / cond
+       absF (m - pm) ≤ 1e-6 * (1 + absF pm))),
    ("search_mean_preserved", !(meanValued && resolvedOk) ||
       (let m := discreteMean s
        let pm := (xe.getLastD 0 - xe.headD 0) / cond
@@ -291,7 +299,10 @@ def judgeState (s : St) (es : List Ent) (a : Ans) : String :=
            ("value_in_own_class", !(rs && !(eqB && f.dd.median && !fallback)) || valuesInClass d),
            ("value_in_own_class_median", !(rs && eqB && f.dd.median && !fallback) || valuesInClass d)]
          else []) ++
-        (if wc then exploreClauses d eqB (!f.dd.median && eqB) rs a.xp a.xe else []))
+        -- theorem `when_possible_distinct_bounds` (in doubles: classes wider than the spacing of the doubles)
+        (if f.dd.scheme == 3 && (f.dd.dom.hi - f.dd.dom.lo) / Float.ofNat f.dd.n > 1e-9 * (1 + absF f.dd.dom.lo + absF f.dd.dom.hi)
+         then [("when_possible_distinct_bounds", !(hasEqualNeighbours d.allBounds))] else []) ++
+        (if wc then exploreClauses d eqB (!f.dd.median && eqB) rs (eqB && f.dd.median && !fallback && rescaledB par f.dd) a.xp a.xe else []))
     | .leaf (.const _) => firstFail (compoundClauses [] a.main ++ [("n_classes", a.main.dist.length == 1 && a.main.n == 1)])
     | .leaf (.simple ss) => firstFail (compoundClauses [] a.main ++
         [("n_classes", a.main.dist.length == ss.vs.length && a.main.n == ss.vs.length),
